@@ -10,6 +10,7 @@ func init() {
 		"instruments of one meter that share a name but differ in kind or number type are different instruments (the SDK only warns about the duplicate registration and reports each as its own metric); a reported metric is attributed to an instrument by (scope, name, Sum[int64] / Sum[float64], IsMonotonic)",
 		"a reader the program shuts down directly ends its pipeline there (a PeriodicReader's own Shutdown is its final flush point; later Adds are not asserted for it); a MeterProvider.ForceFlush / Shutdown error made only of ErrReaderShutdown (at most one per reader shut down directly by then) counts as a successful flush of every other reader",
 		"non-finite float64 measurements are inputs like any other (Float64Counter / Float64UpDownCounter document no restriction on the argument beyond 'increasing values' for the counter): +Inf is generated for both kinds, -Inf and NaN for up-down counters only; the reference total is the IEEE sum, which is order independent for them (NaN if a NaN or both infinities were recorded, else the infinity, else the exact finite sum; NaN compared as NaN, -0 as 0); where IEEE addition is itself order dependent (values near MaxFloat64 mixed with negative ones on an up-down counter) +Inf and the exact sum are both accepted",
+		"'registered reader' / 'recorded' refer to the provider as configured when NewMeterProvider returned: the Option, View and reader-option slices handed to the constructors belong to the caller, who may overwrite them (here: to configure a second provider) as soon as the constructor returned; nothing is overwritten between building an Option and NewMeterProvider",
 		"OTEL_GO_X_CARDINALITY_LIMIT is unset (the driver strips OTEL_* variables)",
 	))
 }
